@@ -153,12 +153,23 @@ def run_check(pid, tier, replay=None):
         for f in os.listdir(REPLAY):          # replays of an earlier run of this check are stale
             if f.startswith(pid + "-"):
                 os.remove(os.path.join(REPLAY, f))
+    import signal
+
+    class Watchdog(Exception):
+        pass
+
+    def on_alarm(*a):
+        raise Watchdog("check exceeded its wall-clock watchdog")
+    signal.signal(signal.SIGALRM, on_alarm)
+    signal.alarm(int(os.environ.get("VERIF_WATCHDOG_S", "1200" if tier == "quick" else "14400")))
     try:
         if replay:
             mod.replay(ctx, replay)
         else:
             mod.run(ctx)
+        signal.alarm(0)
     except Exception as e:  # machinery failure
+        signal.alarm(0)
         tb = traceback.format_exc()
         print(tb[-1500:] if not isinstance(e, tlc.TlcFailure) else "")
         print("MACHINERY-FAILURE property=%s %s: %s" % (pid, type(e).__name__, str(e)[-2500:]))
